@@ -1529,13 +1529,39 @@ def order_constraint(facts, fn, site, const):
     return frozenset(allowed), n
 
 
-def predicate_atoms(sw):
+def predicate_atoms(sw, fn=None, rich=False):
     """what a switch tests, as coarse atoms: 'call:<fn>' for the outermost h2 call, 'field:<name>' for a field read;
-    std adaptor calls (Option::take, as_ref, Deref ...) are looked through"""
+    std adaptor calls (Option::take, as_ref, Deref ...) are looked through.  rich=True also names argument positions,
+    integer constants, captured variables and (by type) multiply-assigned locals, so `n != 0 && n < 256` has atoms"""
     out = set()
+    st = {'up': False}
 
     def leaf(x):
+        if rich and x[0] == 'upvar':
+            st['up'] = True
+            leaf(x[1])
+            st['up'] = False
+            return
         x = strip(x)
+        up = st['up']
+        if rich:
+            if x[0] == 'arg':
+                out.add(('upvar:arg%d' if up else 'arg:%d') % x[1])
+                return
+            if x[0] == 'const' and isinstance(x[1], int) and not isinstance(x[1], bool):
+                out.add('const:%d' % x[1])
+                return
+            if x[0] == 'var':
+                if up or fn is None:
+                    out.add('upvar:var' if up else 'var')
+                else:
+                    out.add('var:' + short(fn.local_ty(x[1])).split('<')[0])
+                return
+            if x[0] == 'upvar':
+                st['up'] = True
+                leaf(x[1])
+                st['up'] = False
+                return
         if x[0] == 'call':
             if x[1].startswith(('proto::', 'frame::', 'codec::', 'hpack::', 'client::', 'server::', 'share::')):
                 out.add('call:' + x[1].rsplit('::', 1)[-1])
@@ -1703,7 +1729,7 @@ def control_terms(facts, fn, site):
         t = fn.term(a)
         if t.get('exp') and any(k in t['exp'] for k in ('trace', 'debug', 'event', 'span', 'warn', 'error!', 'info!')):
             continue
-        at = predicate_atoms(sw)
+        at = predicate_atoms(sw, fn, rich=True)
         if at:
             terms.append('&'.join(sorted(at)))
     return sorted(terms)
